@@ -52,4 +52,42 @@ GathersOfStepC(cs, r, stepmasks, g) ==
 RECURSIVE GathersMultiC(_, _, _, _)
 GathersMultiC(cs, r, masks, k) ==
   IF k > Len(masks) THEN <<>> ELSE GathersOfStepC(cs, r, masks[k], 1) \o GathersMultiC(cs, r, masks, k + 1)
+
+\* ---- 2-D meshes (HSDP / HybridShard): which DeviceMeshes a rank asks for, and which of them it has to create --------------
+\* grid : Seq over the replicate index of Seq over the shard index of ranks, exactly as the user built the mesh (any arrangement);
+\* gs   : ranks per distribution group, divides Len(grid).
+\* __init__ asks for one 2-D mesh per shard column (all ranks enumerate all columns); allocating a block's state asks for the 2-D
+\* mesh of the rank's own column again, built from dist.get_process_group_ranks(), i.e. in ASCENDING rank order.  get_device_mesh
+\* is cached per process, and a cache miss creates process groups - a collective over the world.  Named deviation
+\* "MeshOrderEnumeration" (D11): __init__ enumerates each column in the order of the user's mesh.
+RECURSIVE InsertSorted(_, _)
+InsertSorted(x, s) == IF s = <<>> THEN <<x>> ELSE IF x <= Head(s) THEN <<x>> \o s ELSE <<Head(s)>> \o InsertSorted(x, Tail(s))
+RECURSIVE Ascending(_)
+Ascending(s) == IF s = <<>> THEN <<>> ELSE InsertSorted(Head(s), Ascending(Tail(s)))
+GridColumn(grid, c) == [i \in 1..Len(grid) |-> grid[i][c]]
+Reshape(s, gs) == [i \in 1..(Len(s) \div gs) |-> [j \in 1..gs |-> s[(i - 1) * gs + j]]]
+InitMeshC(grid, gs, c, dev) ==
+  Reshape(IF "MeshOrderEnumeration" \in dev THEN GridColumn(grid, c) ELSE Ascending(GridColumn(grid, c)), gs)
+AllocMeshC(grid, gs, c) == Reshape(Ascending(GridColumn(grid, c)), gs)
+ColumnOfRankC(grid, r) == CHOOSE c \in 1..Len(grid[1]) : \E i \in 1..Len(grid) : grid[i][c] = r
+MeshRequestsC(grid, gs, r, dev) ==
+  [c \in 1..Len(grid[1]) |-> InitMeshC(grid, gs, c, dev)] \o << AllocMeshC(grid, gs, ColumnOfRankC(grid, r)) >>
+RECURSIVE MissesOf(_, _)
+MissesOf(reqs, seen) ==
+  IF reqs = <<>> THEN <<>>
+  ELSE IF Head(reqs) \in seen THEN MissesOf(Tail(reqs), seen)
+       ELSE <<Head(reqs)>> \o MissesOf(Tail(reqs), seen \cup {Head(reqs)})
+MeshMissesC(grid, gs, r, dev) == MissesOf(MeshRequestsC(grid, gs, r, dev), {})
+RanksOfGrid(grid) == UNION {{grid[i][c] : c \in 1..Len(grid[1])} : i \in 1..Len(grid)}
+MeshCreationAgreementC(grid, gs, dev) ==
+  \A r, q \in RanksOfGrid(grid) : MeshMissesC(grid, gs, r, dev) = MeshMissesC(grid, gs, q, dev)
+\* a block owned by group rank j has its state on column j of the allocation mesh; the owner's rank inside its communication group
+\* (process-group ranks are ascending) must be j
+CommsRowC(grid, gs, r, dev) ==
+  LET m == InitMeshC(grid, gs, ColumnOfRankC(grid, r), dev) IN m[CHOOSE i \in 1..Len(m) : \E j \in 1..gs : m[i][j] = r]
+GroupRankC(grid, gs, r, dev) ==
+  LET row == Ascending(CommsRowC(grid, gs, r, dev)) IN (CHOOSE j \in 1..gs : row[j] = r) - 1
+StateOnOwnerC(grid, gs, dev) ==
+  \A r \in RanksOfGrid(grid) :
+     LET a == AllocMeshC(grid, gs, ColumnOfRankC(grid, r)) IN \E i \in 1..Len(a) : a[i][GroupRankC(grid, gs, r, dev) + 1] = r
 =============================================================================
